@@ -1,4 +1,5 @@
 """C14 — every task's epic reference names a live epic."""
+import json
 from .. import common, framework, fndiff, cmdrun, gen, oracles, explore2
 from ..histories import run_history, fieldset, replay_trace, mode_of
 
@@ -82,8 +83,49 @@ def epic_moves(ctx, r):
         st.close()
 
 
+def unterminated_last_event(ctx, r):
+    """the log's last line is a complete event whose final newline is missing (a write cut one byte short; an editor or a merge dropping the
+    last newline): readers accept that line, so every writer must keep it — an epic that validation saw must still be there after the append"""
+    st = cmdrun.Store(ctx.ergo, ctx.go, legacy=r.p(20))
+    trace = []
+    try:
+        def ex(argv, stdin=None):
+            res = st.exec(argv, stdin); trace.append({"argv": argv, "stdin": None if stdin is None else stdin.decode(), "exit": res["exit"]}); return res
+        t0 = json.loads(ex(["--json", "new", "task"], b'{"title":"loose task"}')["stdout"])["id"]
+        for k in range(r.n(3)):
+            ex(["--json", "new", "task"], json.dumps({"title": "filler %d" % k}).encode())
+        e = json.loads(ex(["--json", "new", "epic"], b'{"title":"the epic"}')["stdout"])["id"]
+        data = st.log_bytes()
+        if not data.endswith(b"\n"):
+            return
+        with open(st.log_path(), "wb") as f:
+            f.write(data[:-1])
+        trace.append({"edit": "final newline of the log removed (the last line, the new_epic event, is complete)"})
+        kind = r.pick(["new", "set", "new-flags", "plan-then-new"])
+        if kind == "new":
+            ex(["--json", "new", "task"], json.dumps({"title": "child", "epic": e}).encode())
+        elif kind == "set":
+            ex(["--json", "set", t0], json.dumps({"epic": e}).encode())
+        elif kind == "new-flags":
+            ex(["--json", "new", "task", "--title", "child", "--epic", e])
+        else:
+            ex(["--json", "new", "task"], json.dumps({"title": "child", "epic": e, "state": "blocked"}).encode())
+        ctx.count(1, key=("unterminated-last-event", kind))
+        g = st.graph()
+        if "err" in g:
+            ctx.violation("C14 store unreadable", g["err"][:200], {"trace": trace}); return
+        bad = oracles.inv14(g["graph"])
+        if bad:
+            ctx.violation("C14 task refers to an epic that is not live (%s)" % bad[0][0], "task %s has epic_id %s; the epic's line was the last of the log and lacked only its newline" % (bad[0][1], bad[0][2]),
+                          {"trace": trace}); return
+    finally:
+        st.close()
+
+
 def run(ctx):
     r = gen.Rng(ctx.seed * 1000003 + 14)
+    for i in range(4 if ctx.quick else 60):
+        unterminated_last_event(ctx, r.fork())
     for h in range(25 if ctx.quick else 400):
         run_history(ctx, r.fork(), 35, WEIGHTS, oracle, gen_fn=gen_fn)
     for i in range(4 if ctx.quick else 60):
